@@ -62,6 +62,21 @@ def checkC09 (toks : List String) (res : String) : Option Verdict :=
       else if (mode == .nrst || mode == .tpi) && ed > es && !T.inRange biased then "C09.scaled_bias_overflow_near_limits" else ""
     some { model := showRes (fun r => s!"sc({r.1.toString},{ed},2):{r.2}") m, spec := spec, cls := cls,
            branch := s!"s2s/{toks[1]!}" ++ (if ed > es then "/narrow" else "/exact"), nontrivial := spec.isSome }
+  | ["s2i", mode, st, es, dt, v] => do
+    -- scaled_integer -> plain integer: through scaled_integer<Result> (exponent 0), then to_rep
+    let mode ← parseRdMode mode; let S ← parseIntTy st; let es ← es.toInt?; let D ← parseIntTy dt; let v ← v.toInt?
+    -- the operator's declared return type is `Result`: the representation is converted to it
+    let m := (RoundCvt.scaledToScaled mode S es D 0 v).map (fun r => (D, D.wrap r.2))
+    let q : Rat := (v : Rat) * pow2Rat es
+    let w := roundQ mode q
+    let spec : Option Bool := if D.inRange w then some ((res.splitOn ":").getLast? == some (toString w)) else none
+    let T := promote S
+    let h : Int := (2 : Int)^((0 - es).toNat - 1)
+    let biased : Int := if mode == .nrst && v < 0 then v - h else v + h
+    let cls :=
+      if (mode == .nrst || mode == .tpi) && 0 > es && (0 - es).toNat ≥ S.digits then "C09.scaled_half_unit_exceeds_source_rep"
+      else if (mode == .nrst || mode == .tpi) && 0 > es && !T.inRange biased then "C09.scaled_bias_overflow_near_limits" else ""
+    some { model := showRes showTV m, spec := spec, cls := cls, branch := s!"s2i/{toks[1]!}", nontrivial := spec.isSome }
   | ["f2s", mode, fm, dt, ed, x] => do
     let mode ← parseRdMode mode; let f ← FloatIO.parseFmt fm; let D ← parseIntTy dt; let ed ← ed.toInt?; let x ← Fmt.ofHex? f x
     let m := RoundCvt.floatToScaled mode f D ed x
